@@ -157,9 +157,17 @@ class Program:
                     c = Cls(mod, st)
                     mod.classes[st.name] = c
                     if st.name in self.classes:
-                        raise AnalysisError(f"class name {st.name} defined twice "
-                                            f"({self.classes[st.name].mod.rel}, {mod.rel})")
-                    self.classes[st.name] = c
+                        # the class table is keyed by bare name: a second class of the same name is tolerated only when
+                        # neither is part of the rule / scope / diagnostics hierarchies the rules reason about (e.g. two
+                        # small NamedTuples of the same name in sibling modules); the first one stays in the table
+                        prev = self.classes[st.name]
+                        plain = lambda k: all(b_ in ("NamedTuple", "object", "Enum", "TypedDict") for b_ in k.bases) or not k.bases  # noqa: E731
+                        if not (plain(prev) and plain(c)):
+                            raise AnalysisError(f"class name {st.name} defined twice "
+                                                f"({prev.mod.rel}, {mod.rel})")
+                        self.duplicate_classes = getattr(self, "duplicate_classes", []) + [c.key]
+                    else:
+                        self.classes[st.name] = c
                     for s2 in st.body:
                         if isinstance(s2, ast.Assign) and len(s2.targets) == 1 and isinstance(s2.targets[0], ast.Name):
                             c.attrs[s2.targets[0].id] = s2.value
